@@ -13,4 +13,10 @@ func init() {
 		explanation: "Decides the structural clauses that keep committed history immutable: single writer sites and write positions of the tx log and commit log, no DiscardUpto on history logs, lockset of the commit-state fields, the discard guard, the chain check of TxReader, and that one Alh value feeds the tx record, the hash tree, the commit buffer and the in-memory frontier. It does NOT decide id density or byte equality over interleavings.",
 		assumptions: []string{"all mutation of ImmuStore commit state goes through field stores visible to go/ssa (no unsafe, no reflection)"},
 	})
+	register("C17", &propDef{
+		patterns: []string{"./embedded/appendable/..."},
+		run:      c17,
+		explanation: "Decides the structural clauses behind the byte-log behaviour of the single-file and multi-file appendables: lock pairing and lockset of their mutable state, flush-before-fsync/close/read-only ordering, seek-before-write and the file-position typestate (seekRequired), offset captured before the write, chunk rotation order and its guard, SetOffset rewind discipline and the chunk-discard guard. It does NOT decide refinement of the byte-array model for arbitrary operation sequences.",
+		assumptions: []string{"os.File semantics", "lower-case helpers are only entered with the mutex held (checked at every call site)"},
+	})
 }
